@@ -6,7 +6,8 @@ argument-passing kind of every arm) and `Gen.TermBodies` (bodies) through `evalB
 `csi` / `esc` / `c0` for every state, label and parameter list. So for the arms that call a function nothing of the model is
 hand-transcribed any more: an edit of a callee's body, of the callee an arm names, or of how an arm passes its parameters
 changes a generated term and breaks `csi_is_generated` / `esc_is_generated` / `c0_is_generated` (or is a neutral rewrite).
-The inline arms without a callee (replies, charset designations, keypad modes, DECSCUSR, BEL, SO/SI) stay as the model has them.
+The inline arms that contain code (DECSCUSR, single shifts, keypad modes, charset designations, SO/SI) are translated bodies too;
+only the reply-only arms (DA1, DA2, DSR, `$p`), `ESC # 8` (empty) and BEL (an event) stay as the model has them.
 -/
 import VaxisModel.Props.C05Bodies
 
@@ -36,7 +37,8 @@ def csiBodyOf : CsiArm → Option Body
   | .decset => some TermBodies.body_decset | .rm => some TermBodies.body_rm | .decrst => some TermBodies.body_decrst
   | .sgr => some TermBodies.body_sgr | .decrqm => some TermBodies.body_decrqm | .decstbm => some TermBodies.body_decstbm
   | .decsc => some TermBodies.body_decsc | .decrc => some TermBodies.body_decrc
-  | .arm_63 => none | .arm_3e63 => none | .arm_6e => none | .arm_2470 => none | .arm_2071 => none
+  | .arm_2071 => some TermBodies.body_csi_arm_2071
+  | .arm_63 => none | .arm_3e63 => none | .arm_6e => none | .arm_2470 => none
 
 /-- csi() from generated data only (plus the inline arms) -/
 def csiGen (e : Emu) (label : List Nat) (pm0 : List Param) : M Emu :=
@@ -46,10 +48,7 @@ def csiGen (e : Emu) (label : List Nat) (pm0 : List Param) : M Emu :=
   | some (_, arm, kind) =>
     match csiBodyOf arm with
     | some b => runArm b kind pm e
-    | none =>
-      match arm with
-      | .arm_2071 => .ok { e with cur := { e.cur with shape := ps pm } }
-      | _ => .ok e
+    | none => .ok e                     -- DA1, DA2, DSR, `$p`: a reply (or nothing) only
 
 /-- the arm-level statement, for every entry of the regenerated table -/
 def CsiEntryOk (x : List Nat × CsiArm × ArgKind) : Prop :=
@@ -57,10 +56,7 @@ def CsiEntryOk (x : List Nat × CsiArm × ArgKind) : Prop :=
     csi Fixes.current e x.1 pm0 =
       (match csiBodyOf x.2.1 with
        | some b => runArm b x.2.2 (clampParams pm0) e
-       | none =>
-         match x.2.1 with
-         | .arm_2071 => .ok { e with cur := { e.cur with shape := ps (clampParams pm0) } }
-         | _ => .ok e)
+       | none => .ok e)
 
 theorem all_csi_entries : ∀ x ∈ csiTable, CsiEntryOk x := by
   intro x hx
@@ -105,7 +101,7 @@ theorem all_csi_entries : ∀ x ∈ csiTable, CsiEntryOk x := by
   · intro e pm0; simp only [csiBodyOf, runArm]; rw [body_decstbm]; rfl
   · intro e pm0; simp only [csiBodyOf, runArm]; rw [body_decsc]; rfl
   · intro e pm0; simp only [csiBodyOf, runArm]; rw [body_decrc]; rfl
-  · intro e pm0; rfl
+  · intro e pm0; simp only [csiBodyOf, runArm]; rw [body_csi_arm_2071]; rfl
 
 /-- **csi() is the regenerated table composed with the regenerated bodies**, for every state, label and parameter list. -/
 theorem csi_is_generated (e : Emu) (label : List Nat) (pm0 : List Param) :
@@ -129,7 +125,13 @@ def escBodyOf : EscArm → Option Body
   | .decsc => some TermBodies.body_decsc | .decrc => some TermBodies.body_decrc | .ind => some TermBodies.body_ind
   | .nel => some TermBodies.body_nel | .hts => some TermBodies.body_hts | .ri => some TermBodies.body_ri
   | .ris => some TermBodies.body_ris
-  | _ => none
+  | .arm_4e => some TermBodies.body_esc_arm_4e | .arm_4f => some TermBodies.body_esc_arm_4f
+  | .arm_3d => some TermBodies.body_esc_arm_3d | .arm_3e => some TermBodies.body_esc_arm_3e
+  | .arm_2830 => some TermBodies.body_esc_arm_2830 | .arm_2930 => some TermBodies.body_esc_arm_2930
+  | .arm_2a30 => some TermBodies.body_esc_arm_2a30 | .arm_2b30 => some TermBodies.body_esc_arm_2b30
+  | .arm_2842 => some TermBodies.body_esc_arm_2842 | .arm_2942 => some TermBodies.body_esc_arm_2942
+  | .arm_2a42 => some TermBodies.body_esc_arm_2a42 | .arm_2b42 => some TermBodies.body_esc_arm_2b42
+  | .arm_2338 => none
 
 /-- the arms of esc() that call a function, from generated data only -/
 def EscEntryOk (x : List Nat × EscArm × ArgKind) : Prop :=
@@ -147,26 +149,27 @@ theorem all_esc_entries : ∀ x ∈ escTable, EscEntryOk x := by
   · intro e; simp only [escBodyOf, runArm]; rw [body_nel]; rfl
   · intro e; simp only [escBodyOf, runArm]; rw [body_hts]; rfl
   · intro e; simp only [escBodyOf, runArm]; rw [body_ri]; rfl
-  · intro e; trivial
-  · intro e; trivial
-  · intro e; trivial
-  · intro e; trivial
+  · intro e; simp only [escBodyOf, runArm]; rw [body_esc_arm_4e]; rfl
+  · intro e; simp only [escBodyOf, runArm]; rw [body_esc_arm_4f]; rfl
+  · intro e; simp only [escBodyOf, runArm]; rw [body_esc_arm_3d]; rfl
+  · intro e; simp only [escBodyOf, runArm]; rw [body_esc_arm_3e]; rfl
   · intro e; simp only [escBodyOf, runArm]; rw [body_ris]; rfl
-  · intro e; trivial
-  · intro e; trivial
-  · intro e; trivial
-  · intro e; trivial
-  · intro e; trivial
-  · intro e; trivial
-  · intro e; trivial
-  · intro e; trivial
+  · intro e; simp only [escBodyOf, runArm]; rw [body_esc_arm_2830]; rfl
+  · intro e; simp only [escBodyOf, runArm]; rw [body_esc_arm_2930]; rfl
+  · intro e; simp only [escBodyOf, runArm]; rw [body_esc_arm_2a30]; rfl
+  · intro e; simp only [escBodyOf, runArm]; rw [body_esc_arm_2b30]; rfl
+  · intro e; simp only [escBodyOf, runArm]; rw [body_esc_arm_2842]; rfl
+  · intro e; simp only [escBodyOf, runArm]; rw [body_esc_arm_2942]; rfl
+  · intro e; simp only [escBodyOf, runArm]; rw [body_esc_arm_2a42]; rfl
+  · intro e; simp only [escBodyOf, runArm]; rw [body_esc_arm_2b42]; rfl
   · intro e; trivial
 
 /-- the translated body an arm of c0() runs -/
 def c0BodyOf : C0Arm → Option Body
   | .bs => some TermBodies.body_bs | .ht => some TermBodies.body_ht | .lf => some TermBodies.body_lf
   | .vt => some TermBodies.body_vt | .ff => some TermBodies.body_ff | .cr => some TermBodies.body_cr
-  | _ => none
+  | .arm_0e => some TermBodies.body_c0_arm_0e | .arm_0f => some TermBodies.body_c0_arm_0f
+  | .arm_07 => none
 
 /-- the arms of c0() that call a function, from generated data only (they post no event) -/
 def C0EntryOk (x : List Nat × C0Arm × ArgKind) : Prop :=
@@ -185,8 +188,8 @@ theorem all_c0_entries : ∀ x ∈ c0Table, C0EntryOk x := by
   · intro e r hr; cases hr; simp only [c0BodyOf, runArm]; rw [body_vt]; rfl
   · intro e r hr; cases hr; simp only [c0BodyOf, runArm]; rw [body_ff]; rfl
   · intro e r hr; cases hr; simp only [c0BodyOf, runArm]; rw [body_cr]; rfl
-  · intro e r hr; trivial
-  · intro e r hr; trivial
+  · intro e r hr; cases hr; simp only [c0BodyOf, runArm]; rw [body_c0_arm_0e]; rfl
+  · intro e r hr; cases hr; simp only [c0BodyOf, runArm]; rw [body_c0_arm_0f]; rfl
 
 /-- esc() from generated data for the arms that call a function (the inline arms as the model has them) -/
 def escGen (e : Emu) (label : List Nat) : M Emu :=
